@@ -26,6 +26,7 @@ class Ctx:
         self._path_cache: Dict[tuple, List[Path]] = {}
         self._stable_cache: Dict[str, set] = {}
         self._known = None
+        self._wrapped_cache: Dict[str, Optional[list]] = {}
 
     @property
     def thorough(self) -> bool:
@@ -117,6 +118,7 @@ class Ctx:
               base_exc=False, max_depth=3, bindings=None, may_raise=None, loops_for_comps=False, comps_for_loops=False) -> List[Path]:
         if unroll is None:
             unroll = 3 if self.thorough else 2
+        self._wrapped_guard(fn)
         key = (fn.key, fn.lineno, str(inline), exc_edges, unroll, base_exc, max_depth, may_raise, loops_for_comps, comps_for_loops)
         if key in self._path_cache and bindings is None:
             return self._path_cache[key]
@@ -157,4 +159,21 @@ class Ctx:
     def fn(self, key: str) -> FuncInfo:
         f = self.p.fn(key)
         self.rep.note_fn(f)
+        self._wrapped_guard(f)
         return f
+
+    def _wrapped_guard(self, f: FuncInfo) -> None:
+        """A function the rules read must be what its callers get: a decorator added after the analysed baseline that can
+        answer without running the body (memo) or changes arguments/result makes the reading unsound -> not a verdict.
+        (Rules that decide such a wrapper themselves - wrappers.check_fresh - report it as a violation, which wins.)"""
+        if not getattr(f.node, "decorator_list", None):
+            return
+        if f.key not in self._wrapped_cache:
+            self._wrapped_cache[f.key] = None  # re-entrancy: the verdict itself enumerates paths
+            from .wrappers import wrapped_report
+
+            self._wrapped_cache[f.key] = wrapped_report(self, f)
+        bad = self._wrapped_cache[f.key]
+        if bad:
+            txt, v, why = bad[0]
+            raise AnalysisError(f"UNRECOGNISED-IDIOM {self.prop}.anchor at {f.loc()}: {f.qualname} is reached through @{txt} ({v}): {why}")
